@@ -994,6 +994,40 @@ def site_candidates(prog, limit=24):
     return out[:limit]
 
 
+def expr_candidates(prog, limit=24):
+    """Programs in which one compound expression is replaced by one of its operands or by the literal 1."""
+    found = []
+
+    def walk(o, path):
+        if isinstance(o, list):
+            for i, x in enumerate(o):
+                walk(x, path + [i])
+        elif isinstance(o, dict):
+            if o.get('k') in ('sum', 'prod', 'quot', 'pow', 'neg', 'par', 'call', 'and', 'or', 'not', 'arr') and path and path[-1] != 'lhs':
+                found.append((path, o))
+            for key, v in o.items():
+                if isinstance(v, (list, dict)):
+                    walk(v, path + [key])
+    for ui, u in enumerate(prog['units']):
+        walk(u['body'], ['units', ui, 'body'])
+    found.sort(key=lambda po: -len(str(po[1])))
+    out = []
+    for path, o in found:
+        reps = [c for c in o.get('c', []) if isinstance(c, dict) and c.get('k') not in (None, 'range', 'none')][:2]
+        if o['k'] not in ('and', 'or', 'not'):
+            reps.append(N(1))
+        for rep in reps:
+            p2 = copy.deepcopy(prog)
+            cur = p2
+            for step in path[:-1]:
+                cur = cur[step]
+            cur[path[-1]] = copy.deepcopy(rep)
+            out.append(p2)
+            if len(out) >= limit:
+                return out
+    return out
+
+
 def report(ctx, label, cases, results, fails, transform, per_group=3, rounds=5):
     """Violations with a normal-form key  label:signature:tags(shrunk program).  Failures are grouped by
     signature; up to per_group members with different tags are shrunk (all candidates of one round go through
@@ -1010,26 +1044,30 @@ def report(ctx, label, cases, results, fails, transform, per_group=3, rounds=5):
             if tg in seen:
                 continue
             seen.add(tg)
-            reps.append({'sig': sig, 'idx': idx, 'kind': kind, 'msg': msg, 'small': cases[idx][0], 'n': len(members), 'done': False})
+            reps.append({'sig': sig, 'idx': idx, 'kind': kind, 'msg': msg, 'small': cases[idx][0], 'n': len(members)})
             if len(seen) >= per_group:
                 break
+    for r in reps:
+        r['phase'] = 0           # 0: statements / call sites, 1: expressions, 2: done
     for _ in range(rounds):
-        batch, owner = [], []
+        batch = []
         for r in reps:
-            if r['done']:
+            if r['phase'] > 1:
                 continue
-            cands = site_candidates(r['small'], 8) + F.removal_candidates(r['small'], limit=16)
+            if r['phase'] == 0:
+                cands = site_candidates(r['small'], 8) + F.removal_candidates(r['small'], limit=16)
+            else:
+                cands = expr_candidates(r['small'], 20)
             r['cands'] = cands
             for c in cands:
                 batch.append((prune(copy.deepcopy(c)), cases[r['idx']][1]))
-                owner.append(r)
         if not batch:
             break
         res, fl, _ = F.behaviour_check(ctx, f'{label}-shrink', batch, transform)
         failed = {i: F.failure_signature(kind, msg) for i, kind, msg in fl}
         pos = 0
         for r in reps:
-            if r['done']:
+            if r['phase'] > 1:
                 continue
             nxt = None
             for ci in range(len(r['cands'])):
@@ -1037,7 +1075,7 @@ def report(ctx, label, cases, results, fails, transform, per_group=3, rounds=5):
                     nxt = batch[pos + ci][0]
             pos += len(r['cands'])
             if nxt is None:
-                r['done'] = True
+                r['phase'] += 1
             else:
                 r['small'] = nxt
     seen_keys = set()
